@@ -2294,32 +2294,36 @@ handleASDU(MasterConnection self, CS101_ASDU asdu)
 
         DEBUG_PRINT("CS104 SLAVE: Rcvd test command with CP56Time2a C_TS_TA_1\n");
 
-        if (cot != CS101_COT_ACTIVATION)
+        if (cot == CS101_COT_ACTIVATION)
         {
             union uInformationObject _io;
 
             TestCommandWithCP56Time2a tc = (TestCommandWithCP56Time2a) CS101_ASDU_getElementEx(asdu, (InformationObject) &_io, 0);
 
-            /* Verify IOA = 0 */
-            if (InformationObject_getObjectAddress((InformationObject) tc) != 0)
+            if (tc)
             {
-                DEBUG_PRINT("CS104 SLAVE: test command has invalid IOA - should be 0\n");
-                responseNegative(asdu, self, CS101_COT_UNKNOWN_IOA);
+                /* Verify IOA = 0 */
+                if (InformationObject_getObjectAddress((InformationObject) tc) != 0)
+                {
+                    DEBUG_PRINT("CS104 SLAVE: test command has invalid IOA - should be 0\n");
+                    responseNegative(asdu, self, CS101_COT_UNKNOWN_IOA);
+                }
+                else
+                {
+                    CS101_ASDU_setCOT(asdu, CS101_COT_ACTIVATION_CON);
+                    sendASDUInternal(self, asdu);
+                }
+
+                messageHandled = true;
             }
             else
-            {
-                CS101_ASDU_setCOT(asdu, CS101_COT_UNKNOWN_COT);
-                CS101_ASDU_setNegative(asdu, true);
-            }
-
-            messageHandled = true;
+                return false;
         }
         else
-            CS101_ASDU_setCOT(asdu, CS101_COT_ACTIVATION_CON);
-
-        sendASDUInternal(self, asdu);
-
-        messageHandled = true;
+        {
+            responseCOTUnknown(asdu, self);
+            messageHandled = true;
+        }
 
         break;
 
